@@ -788,9 +788,12 @@ struct Digit {
                         b_int >>= (m_shift - positive_exp);
                     }
 
+                    // A set bit of the mantissa that is shifted out, or a remainder of the dropped digits,
+                    // means the value is above what the digits show.
+                    round_up = ((m_shift > positive_exp) && ((m_shift - positive_exp) > first_shift));
+
                     if (drop != 0) {
-                        round_up = true;
-                        bigIntDropDigits(b_int, drop);
+                        round_up = (bigIntDropDigits(b_int, drop) || round_up);
                     }
                 } else {
                     SizeT32 shift   = 0;
@@ -945,17 +948,20 @@ struct Digit {
     }
 
     template <typename BigInt_T>
-    inline static void bigIntDropDigits(BigInt_T &b_int, SizeT32 drop) noexcept {
+    inline static bool bigIntDropDigits(BigInt_T &b_int, SizeT32 drop) noexcept {
         using DigitConst = DigitUtils::DigitConst<BigInt_T::SizeOfType()>;
+        bool remainder   = false;
 
         while (drop >= DigitConst::MaxPowerOfFive) {
-            b_int /= DigitConst::GetPowerOfFive(DigitConst::MaxPowerOfFive);
+            remainder = ((b_int.Divide(DigitConst::GetPowerOfFive(DigitConst::MaxPowerOfFive)) != 0) || remainder);
             drop -= DigitConst::MaxPowerOfFive;
         }
 
         if (drop != 0) {
-            b_int /= DigitConst::GetPowerOfFive(drop);
+            remainder = ((b_int.Divide(DigitConst::GetPowerOfFive(drop)) != 0) || remainder);
         }
+
+        return remainder;
     }
 
     template <typename Stream_T>
